@@ -78,6 +78,8 @@ func (fg *FnGen) monitorBefore(fr *Frame, d callDesc, args []*Term, argTypes []t
 			if o != nil && via != "" {
 				o.Note = "callee may reach " + via
 			}
+			// an assertion that is proved is a fact for what follows (assert-then-assume)
+			fg.assumeIf(reach, v)
 		}
 	}
 }
